@@ -173,6 +173,29 @@ func main() {
 				}
 				return true
 			})
+			// fine-grained scheduling points: entry of every declared function and of
+			// every function literal of the server package (active only while a
+			// scenario sets vsched.Fine; exposes state shared without any
+			// synchronisation operation between the conflicting accesses)
+			if rel == "internal/server" {
+				fine := func() ast.Stmt {
+					return &ast.ExprStmt{X: &ast.CallExpr{Fun: sel("vsched", "FinePoint")}}
+				}
+				for _, d := range af.Decls {
+					fd, ok := d.(*ast.FuncDecl)
+					if !ok || fd.Body == nil || fd.Name.Name == "init" {
+						continue
+					}
+					ast.Inspect(fd.Body, func(n ast.Node) bool {
+						if fl, ok := n.(*ast.FuncLit); ok && fl.Body != nil {
+							fl.Body.List = append([]ast.Stmt{fine()}, fl.Body.List...)
+						}
+						return true
+					})
+					fd.Body.List = append([]ast.Stmt{fine()}, fd.Body.List...)
+					needSched = true
+				}
+			}
 			// hand the *Server to the harness: after `s := &Server{...}` in Serve
 			if rel == "internal/server" {
 				for _, d := range af.Decls {
@@ -309,4 +332,8 @@ func addImport(f *ast.File, path, name string) {
 			return
 		}
 	}
+	// no import declaration yet
+	g := &ast.GenDecl{Tok: token.IMPORT, Specs: []ast.Spec{spec}}
+	f.Decls = append([]ast.Decl{g}, f.Decls...)
+	f.Imports = append(f.Imports, spec)
 }
